@@ -212,7 +212,7 @@ def check_meta(ctx):
     if len(loops) == 1 and canon(loops[0].iter) in iters_ok and isinstance(loops[0].target, ast.Name):
         k = loops[0].target.id
         st = [s for s in loops[0].body if isinstance(s, ast.Assign) and isinstance(s.targets[0], ast.Subscript)]
-        oka = len(st) == 1 and canon(st[0].targets[0].slice) == k and canon(strip_to(st[0].value)) == canon(parse("func(self[%s])" % k))
+        oka = len(st) == 1 and canon(st[0].targets[0].slice) == k and canon(strip_to(A.inline_temporaries(st[0].value, st[0], ap))) == canon(parse("func(self[%s])" % k))
     elif len(comps) == 1 and len(comps[0].generators) == 1 and canon(comps[0].generators[0].iter) in iters_ok and not comps[0].generators[0].ifs and isinstance(comps[0].generators[0].target, ast.Name):
         k = comps[0].generators[0].target.id
         oka = canon(comps[0].key) == k and canon(strip_to(comps[0].value)) == canon(parse("func(self[%s])" % k))
